@@ -87,6 +87,19 @@ def run(ctx):
                 sb = ba[pa <= pb_a]
                 if len(sb) > 1 and np.any(np.diff(sb) <= 0 if ga.dtype == np.float64 else np.diff(sb) < -eps):
                     bad("oil FVF does not rise with pressure up to the bubble point (array argument)", inp_a, float(np.diff(sb).min()))
+                # the same pressures listed in another order (a depletion history runs from high to low pressure): every entry keeps its value
+                for how, perm in (("descending", np.arange(len(arr))[::-1]), ("shuffled", rng.permutation(len(arr)))):
+                    arr_p = arr[perm].copy()
+                    gp = np.asarray(oil.solution_gor_Standing(T, arr_p, api, gg, rsi_in))
+                    bp = np.asarray(oil.b_o_Standing(T, arr_p, api, gg, rsi_in))
+                    dp_ = np.asarray(oil.density_Standing(T, arr_p, api, gg, rsi_in))
+                    d_asc = np.asarray(oil.density_Standing(T, arr, api, gg, rsi_in))
+                    ev += 1
+                    if not (np.array_equal(gp, ga[perm]) and np.array_equal(bp, ba[perm]) and np.array_equal(dp_, d_asc[perm])):
+                        bad("solution GOR / oil FVF / density of a pressure array depend on the ORDER in which the pressures are listed "
+                            "(the ordering clauses about the bubble point fail for a depletion history)", dict(**inp_a, order=how),
+                            dict(max_rel_diff_Bo=float(np.nanmax(np.abs(bp / ba[perm] - 1))), max_rel_diff_gor=float(np.nanmax(np.abs(gp / ga[perm] - 1)))))
+                        break
         if k < (4 if ctx.quick else 25):
             fa = lambda *xs: " ".join(core.frac(float(x)) for x in xs)
             for p in (float(rng.uniform(15, 0.97 * pb)), float(rng.uniform(1.03 * pb, 2.5 * pb))):
